@@ -45,6 +45,15 @@ func init() {
 // Copies the payload to memory offset 0, performs the call of the given kind with input mem[0:callSize], never reverts, and
 // returns success(32) | gas consumed around the call(32) | returndata.  With the high bit of `kind` set the frame REVERTs
 // (with the same data) after the call, so that everything done inside it is undone.
+// calldata of FunToken.whoAmI("nibi1qqq…") used by the proxy's optional preceding query call
+var proxyWhoAmI = func() []byte {
+	in, err := embeds.SmartContract_FunToken.ABI.Pack("whoAmI", "0x1111111111111111111111111111111111111111")
+	if err != nil {
+		panic(err)
+	}
+	return in
+}()
+
 func proxyRuntime() []byte {
 	a := easm.New()
 	a.Push(117).Op(easm.CALLDATASIZE, easm.SUB) // plen
@@ -59,6 +68,16 @@ func proxyRuntime() []byte {
 	a.Push(0).Op(easm.CALLDATALOAD).Push(0xf8).Op(easm.SHR)
 	a.Op(easm.DUP1).Push(0x80).Op(easm.AND).Push(0x8060).Op(easm.MSTORE) // revert flag
 	a.Push(0x7f).Op(easm.AND)
+	// flag 0x40: first a successful, log-free query call to the FunToken precompile (whoAmI) by plain CALL with zero value, so that
+	// the call under test follows another precompile call with nothing journaled in between
+	a.Op(easm.DUP1).Push(0x40).Op(easm.AND, easm.ISZERO).JumpiTo("noq")
+	for off := 0; off < len(proxyWhoAmI); off += 32 {
+		chunk := make([]byte, 32)
+		copy(chunk, proxyWhoAmI[off:])
+		a.PushBytes(chunk).Push(int64(0xA000 + off)).Op(easm.MSTORE)
+	}
+	a.Push(0).Push(0).Push(int64(len(proxyWhoAmI))).Push(0xA000).Push(0).PushBytes(precompile.PrecompileAddr_FunToken.Bytes()).Op(easm.GAS, easm.CALL, easm.POP)
+	a.Label("noq").Push(0x3f).Op(easm.AND)
 	a.Op(easm.DUP1).Push(1).Op(easm.EQ).JumpiTo("static")
 	a.Op(easm.DUP1).Push(2).Op(easm.EQ).JumpiTo("deleg")
 	a.Op(easm.DUP1).Push(3).Op(easm.EQ).JumpiTo("callcode")
@@ -513,6 +532,26 @@ func runPrecomp(r *hx.R, n int, w *hx.W, mode string) error {
 
 	for i := 0; i < n; i++ {
 		pc, in, origin := g.calldata()
+		// aimed (L2): a mutation that fails LATE — wasm.execute moves the caller's funds to the contract and only then runs the
+		// contract, which rejects the message; everything it wrote must be undone with the failed sub-call
+		lateFail := mode != "l1" && r.Chance(1, 12)
+		if lateFail {
+			var err error
+			if r.Chance(1, 2) {
+				pc = g.pcs[1]
+				in, err = pc.abi.Pack("execute", g.wasmC, []byte(`{"no_such_message":{}}`), funds{{Denom: []string{"ulog", "unibi"}[r.Pick(2)], Amount: big.NewInt(r.Range(1, 9))}})
+				origin = "aimed:late-failing-execute"
+			} else {
+				// FunToken.sendToEvm escrows the caller's coins in the bank first and mints the ERC20 afterwards; minting to the zero
+				// address reverts
+				pc = g.pcs[0]
+				in, err = pc.abi.Pack("sendToEvm", "ulog", big.NewInt(r.Range(1, 9)), "0x0000000000000000000000000000000000000000")
+				origin = "aimed:late-failing-sendToEvm"
+			}
+			if err != nil {
+				return err
+			}
+		}
 		w.Count("in:" + strings.SplitN(origin, ":", 2)[0])
 		if mode == "l1" {
 			// ---------------- L1: direct RunPrecompiledContract with controlled len/cap
@@ -594,6 +633,9 @@ func runPrecomp(r *hx.R, n int, w *hx.W, mode string) error {
 		}
 		// ---------------- L2: through the real msg server
 		shape := r.Pick(7) // 0 top, 1 call, 2 static, 3 delegate, 4 callcode, 5 static>call (nested), 6 call>static
+		if lateFail {
+			shape = 1
+		}
 		var fwd uint64
 		switch r.Pick(4) {
 		case 0:
@@ -606,6 +648,9 @@ func runPrecomp(r *hx.R, n int, w *hx.W, mode string) error {
 		value := big.NewInt(0)
 		if r.Chance(1, 5) {
 			value = big.NewInt(r.Range(1, 3) * 1_000_000_000_000)
+		}
+		if lateFail && r.Chance(3, 4) { // let the aimed call get far enough to fail late: all gas, no value
+			fwd, value = 0, big.NewInt(0)
 		}
 		callSize := new(big.Int).Set(maxU256)
 		sizeLabel := "full"
@@ -626,7 +671,12 @@ func runPrecomp(r *hx.R, n int, w *hx.W, mode string) error {
 			if shape != 1 && shape != 4 {
 				value = big.NewInt(0)
 			}
-			to, data = proxy, proxyCalldata(kinds[shape], pc.addr, value, fwd, callSize, in)
+			kind := kinds[shape]
+			if r.Chance(1, 4) || (lateFail && r.Chance(2, 3)) { // preceded by a query call to a precompile (see proxyRuntime)
+				kind |= 0x40
+				shapeName = "query+" + shapeName
+			}
+			to, data = proxy, proxyCalldata(kind, pc.addr, value, fwd, callSize, in)
 		case 5:
 			inner := proxyCalldata(0, pc.addr, big.NewInt(0), fwd, callSize, in)
 			to, data = proxy, proxyCalldata(1, proxy, big.NewInt(0), 0, maxU256, inner)
